@@ -58,7 +58,7 @@ PROPS = {
     "C03": {"level": "other", "explanation": "lemma over contracts: (i) both engines refine EngineSpec for every primitive (proved), (ii) the element layer is verified against EngineSpec only (proved), (iii) to_function outputs the elements' next_states and takes exactly their symbols as inputs (layout obligations on bounded spines), (iv) calling a casadi.Function substitutes arguments (assumed). SX and MX share every contract except _filter_vars (both branches verified).", "trusted_base": [T_VIEW, T_FUN, T_SPINE]},
     "C04": {"level": "other", "explanation": "layout of arguments/results (names, order, stacking per compactness level, parameters last, result k = successor of state argument k, no free symbol) checked by executing to_function, its helpers and Network.elements/states/... symbolically against the layout written from the property statement; element enumeration order links-origins-destinations", "trusted_base": [T_FUN, T_SPINE]},
     "C05": {"level": "other", "explanation": "extra outputs are Link.get_flow of every link and origin.get_flow(net, engine, **parameters, **other_parameters) of every origin, in enumeration order - the same calls (same contract term) the queue update and the node inflow use; Link.get_flow = rho*v*lanes and the step_dynamics postconditions are proved", "trusted_base": [T_VIEW, T_FUN, T_SPINE]},
-    "C06": {"level": "other", "explanation": "deductive core: the body of each of is_valid's four loops and of its nested generator is executed at a generic item and proved to report (message, or InvalidNetworkError with raises=True) exactly when the documented condition(s) hold there - (1) object met before, by identity; (2)-(5) at a node; (6)-(7) at an origin entry; (8)-(9) at a destination entry - the loops run over the right collections and the verdict is `not msgs`; the per-node link views are verified. Not proved: the aggregation over all items (that counting over all slots detects exactly the duplicated objects, and the equivalence with the global nine conditions) - decided by the bounded stand-in (exhaustive small graphs incl. self-loops, cycles, shared and same-named objects, plus random larger ones)", "trusted_base": [T_NX, "aggregation of the per-item verdicts over the four loops (bounded stand-in only)"]},
+    "C06": {"level": "proof", "explanation": "is_valid is executed as a whole on a graph with a symbolic number of nodes, edges and attachments (not assumed valid). Loops are not unrolled: each body is summarised at a generic index (all paths) and the loop's effect is stated by a rule - msgs non-empty afterwards iff some iteration reports (witness / universal fact), with raises=True the loop raises iff some iteration raises, and the count dict satisfies the invariant count[o] = number of earlier slots holding o (prefix sum of indicators; every write is obliged to re-establish it). Postconditions, written from the documented list: valid => none of the nine conditions is violated at any edge/node (two generic holders never hold the same object; (2)-(9) at a generic node), invalid => an explicit witness violates one of them, InvalidNetworkError exactly when invalid, invalid => a message exists. The loop bodies are in addition checked item by item (valid_tasks.py) and the whole function is exercised by the bounded stand-in", "trusted_base": [T_NX, "python dict semantics of Network.origins/destinations (a repeated key keeps its last node) and the per-node link views (verified for C08) enter as the model of what is_valid iterates over", "loop rule: the effect of a loop is derived from the summary of its body at a generic index (pyvc/summary.py); finite-sum facts: lemma:sum-membership, lemma:sum-signs (induction, discharged by z3)"]},
     "C07": {"level": "proof", "explanation": "safety half of all contracts: no exception, indices/keys/asserts, shapes (next state = state), engine primitives keep every partial operation inside its domain under their admissible precondition (both engines, all argument-shape configurations incl. the NumPy engine's own (1,) variables and exact zeros), and the element layer is proved to call them inside that precondition for every admissible state (positive parameters, non-negative states, excluding the model's own 0/0 cases)", "trusted_base": [T_VIEW, T_FUN, T_SPINE]},
     "C08": {"level": "proof", "explanation": "representation invariant: a cached lookup is either dropped by the mutator (the real invalidate_cache wrapper is interpreted) or cannot change because the graph regions it reads are disjoint from the regions the mutator writes; holds after every interleaving of mutators and reads (no bound on histories)", "trusted_base": [T_NX]},
     "C09": {"level": "proof", "explanation": "each add_* makes exactly the described networkx call (node, edge direction, attribute key, replace on an existing node); add_path is proved for paths of any length and content by a loop invariant (inv-init, inv-step for a generic iteration of either parity, summary): accepted iff at least three items alternating node-link-node and ending in a node, every node/link/origin/destination added exactly as described, and only Node items ever reach add_node/add_origin/add_destination; in addition every concrete path shape up to length 5 is executed", "trusted_base": [T_NX]},
